@@ -118,7 +118,12 @@ def addValues (o : Orc) (tg : Target) : List Str → Sched → Res Sched
       | .stop => addValues o tg rest { acc with stops := acc.stops ++ [v] }
       | .restart => addValues o tg rest { acc with restarts := acc.restarts ++ [v] }
 
-/-- `parseScheduleMap` (entries in document order; Go's map order is arbitrary — every order is some tree) -/
+/-- `parseScheduleMap` (entries in document order; Go's map order is arbitrary — every order is some tree).
+    What the code does with the value of a key, transcribed as it is: a string is one expression, a list must
+    consist of strings (a non-string element is a load error), and ANY OTHER value — null, a number, a bool,
+    a map — matches no case of the type switch and is silently ignored: that key contributes nothing and, in
+    particular, does not touch the lists of the other keys. (Odd next to `schedule: 5` at the top level, which
+    is a load error; the model follows the code.) Each key's values start from an empty slice. -/
 def parseScheduleMap (o : Orc) : List (Tree × Tree) → Sched → Res Sched
   | [], acc => .ok acc
   | (k, v) :: rest, acc =>
